@@ -481,7 +481,27 @@ def mk_sum(var, count: Frac, body: Frac) -> Frac:
     return out / den
 
 
+def _pos_orientation(inner: Frac, var):
+    """+1 / -1 if every reading position inside `inner` moves forward / backward with var, else 0"""
+    signs = set()
+    for a in all_atoms(inner):
+        if a[0] == "rd" and var in all_atoms(a[2]) | a[2].atoms():
+            v = linear_view(a[2])
+            if v is None or var not in v[0]:
+                return 0
+            signs.add(1 if v[0][var] > 0 else -1)
+    if len(signs) == 1:
+        return signs.pop()
+    return 0
+
+
 def _canon_sum_atom(var, count, inner: Frac) -> Frac:
+    if _pos_orientation(inner, var) > 0:
+        # canonical orientation: offsets count back from the newest element (positions t - o)
+        nv = fresh_bv()
+        flipped = subst(inner, {var: count - ONE - Frac.atom(nv)})
+        if _pos_orientation(flipped, nv) < 0:
+            return mk_sum(nv, count, flipped)
     depth = _bv_depth(inner) + 1
     depth = max(depth, _bv_depth(count) + 1)
     cv = ("bv", depth)
@@ -490,7 +510,7 @@ def _canon_sum_atom(var, count, inner: Frac) -> Frac:
     # the reversed form may have become a polynomial again (e.g. (count-1-o)*x): only use it
     # for orientation choice when it is still a single monomial with coefficient 1
     cands = [fwd]
-    if rev.is_poly() and len(rev.n.t) == 1 and list(rev.n.t.values())[0] == 1:
+    if _pos_orientation(inner, var) == 0 and rev.is_poly() and len(rev.n.t) == 1 and list(rev.n.t.values())[0] == 1:
         cands.append(rev)
     best = min(cands, key=repr)
     return Frac.atom(("sum", cv, count, best))
@@ -503,7 +523,8 @@ def mk_red(kind: str, var, count: Frac, body: Frac, clamp: bool) -> Frac:
     fwd = subst(body, {var: Frac.atom(cv)})
     if kind in ("max", "min"):
         rev = subst(body, {var: count - ONE - Frac.atom(cv)})
-        best = min([fwd, rev], key=repr)
+        o = _pos_orientation(body, var)
+        best = fwd if o < 0 else (rev if o > 0 else min([fwd, rev], key=repr))
     else:
         best = fwd  # argoff reductions are orientation sensitive (offset from t)
     if count.is_const() and count.const_value() == 1 and kind in ("max", "min"):
